@@ -314,66 +314,45 @@ def check_subs(ctx: core.Ctx, g: GenInfo):
         if not subs_names:
             ctx.error(f"{where}: no `.subs(...)` call found")
             continue
-        got: Dict[Any, str] = {}
-        dt_ok = None
+        from . import subseval
+        def iter_role(node):
+            lay = iter_lay.get(id(node))
+            return lay.segs[0][1] if lay is not None and len(lay.segs) == 1 and lay.segs[0][0] == "SORT" else None
+        ev = subseval.SubsEval(mod, iter_role)
+        scope = subseval.Scope(fn)
+        entries = []
         bad = []
-        local_defs: Dict[str, List[ast.AST]] = {}
-        for a in ast.walk(fn):
-            if isinstance(a, ast.Assign) and len(a.targets) == 1 and isinstance(a.targets[0], ast.Name):
-                local_defs.setdefault(a.targets[0].id, []).append(a.value)
-
-        def parts_of(e, depth=0):
-            """flatten `a + b + c`, resolving single-assignment local names"""
-            if isinstance(e, ast.BinOp) and isinstance(e.op, ast.Add):
-                return parts_of(e.left, depth) + parts_of(e.right, depth)
-            if isinstance(e, ast.Name) and depth < 4 and len(local_defs.get(e.id, [])) == 1:
-                return parts_of(local_defs[e.id][0], depth + 1)
-            if isinstance(e, ast.Call) and isinstance(e.func, ast.Name) and e.func.id == "list" and len(e.args) == 1:
-                return parts_of(e.args[0], depth)
-            return [e]
-        for sname in subs_names:
-            for v in local_defs.get(sname, []):
-                for comp in parts_of(v):
-                    if isinstance(comp, ast.ListComp):
-                        lay = iter_lay.get(id(comp))
-                        role = lay.segs[0][1] if lay is not None and len(lay.segs) == 1 and lay.segs[0][0] == "SORT" else None
-                        pref = None
-                        elt = comp.elt
-                        tname = comp.generators[0].target.id if isinstance(comp.generators[0].target, ast.Name) else None
-                        if isinstance(elt, ast.Tuple) and len(elt.elts) == 2 and isinstance(elt.elts[0], ast.Name) and elt.elts[0].id == tname:
-                            for s2 in ast.walk(elt.elts[1]):
-                                if isinstance(s2, ast.Constant) and isinstance(s2.value, str) and "{}" in s2.value:
-                                    pref = s2.value
-                                if isinstance(s2, ast.JoinedStr):
-                                    pref = "".join(v2.value if isinstance(v2, ast.Constant) else "{}" for v2 in s2.values)
-                        if role is None or pref is None:
-                            bad.append(ast.unparse(comp)[:80])
-                        else:
-                            got[role] = pref
-                    elif isinstance(comp, ast.List) and len(comp.elts) == 1 and isinstance(comp.elts[0], ast.Tuple) and len(comp.elts[0].elts) == 2:
-                        src, dst = comp.elts[0].elts
-                        if isinstance(src, ast.Attribute) and src.attr == "dt":
-                            dt_ok = isinstance(dst, ast.Call) and ast.unparse(dst.func) == "Symbol" and len(dst.args) == 1 \
-                                and isinstance(dst.args[0], ast.Constant) and dst.args[0].value == dtname
-                        else:
-                            bad.append(ast.unparse(comp)[:80])
-                    elif isinstance(comp, ast.List) and not comp.elts:
-                        pass
-                    else:
-                        bad.append(ast.unparse(comp)[:80])
+        for sname in sorted(subs_names):
+            try:
+                entries += ev.eval(ast.parse(sname, mode="eval").body, scope)
+            except subseval.Unsupported as ex:
+                bad.append(str(ex))
+        for s_, d_ in entries:
+            if s_[0] == "OTHER" or d_[0] != "SYM":
+                bad.append(f"({s_[-1]}, {d_[-1]})")
         if bad:
             for b in bad:
                 ctx.error(f"{where}: substitution entry `{b}` is not an enumerated idiom")
             continue
+        for h in ev.inlined:
+            ctx.functions.append(f"cpp.{h}")
+        got: Dict[Any, str] = {}
+        dup = []
+        for s_, d_ in entries:
+            if s_[0] == "ROLE":
+                if s_[1] in got and got[s_[1]] != d_[1]:
+                    dup.append(s_[1])
+                got[s_[1]] = d_[1]
+        dts = [d_[1] for s_, d_ in entries if s_[0] == "DT"]
+        dt_ok = (len(dts) == 1 and dts[0] == dtname) if dts else None
+        if dup:
+            ctx.oblige("SUBS", where, f"roles substituted twice with different text: {dup}", False, file=CPPF, func=f"{cls}.{fname}",
+                       construct="subs_set duplicate role", msg=f"{fname} substitutes {dup} twice with different C++ text", line=fn.lineno)
         # substitution is sequential: the pair that introduces the bare identifier `dt` must come after every pair whose source is a user symbol
         # (a control / calibration symbol that is itself spelled `dt` would otherwise capture the freshly introduced Symbol("dt"))
         if need_dt and dt_ok:
-            order = []
-            for sname in subs_names:
-                for v in local_defs.get(sname, []):
-                    for comp in parts_of(v):
-                        order.append("dt" if isinstance(comp, ast.List) and comp.elts else ("comp" if isinstance(comp, ast.ListComp) else "other"))
-            last_ok = bool(order) and order[-1] == "dt" and order.count("dt") == 1
+            order = [s_[0] if s_[0] == "DT" else s_[1] for s_, d_ in entries]
+            last_ok = order[-1] == "DT"
             ctx.oblige("SUBS", where, f"substitution order {order}", last_ok, file=CPPF, func=f"{cls}.{fname}", construct="subs_set order",
                        msg="the time-step pair (model dt -> Symbol('dt')) is not the last entry of the sequential substitution: a control / calibration symbol "
                            "spelled `dt` then captures the freshly introduced Symbol('dt')", line=fn.lineno)
